@@ -418,7 +418,7 @@ impl Synth {
         for i in 0..n {
             let pfx = ["inner_vk", "vkA", "k"][i % 3];
             let mut fb = self.fixed_setup(&mut rng, &[pfx, "other"]);
-            let d = if i % 2 == 0 { F::ZERO } else { nonzero(&mut rng) };
+            let d = if (i + i / 8) % 2 == 0 { F::ZERO } else { nonzero(&mut rng) };
             let variant = i % 8;
             let dup = variant == 5;
             let mut sd = self.gen_proof_dual(&mut rng, &fb, pfx, d, dup);
